@@ -339,6 +339,9 @@ func GenClaims(t *rapid.T, w *World, p *Perm, max int) {
 				}
 			case 0, 1: // node type
 				kind, attr, val = "set-attribute", "camliNodeType", rapid.SampledFrom(NodeTypes).Draw(t, "nodeType")
+				if !has(state[attr], val) && rapid.IntRange(0, 2).Draw(t, "nodeTypeAdded") == 0 {
+					kind = "add-attribute" // a type given (or a second type added) with add-attribute
+				}
 			case 2, 3: // tag add
 				attr, val = "tag", rapid.SampledFrom(Tags).Draw(t, "tag")
 				kind = "add-attribute"
